@@ -24,10 +24,12 @@ EXPLANATION = (
     "increasing frequency and re-binning each filter onto the SED's own frequency grid.")
 NOT_DECIDED = ["conservation sum_i R_i == integral of the response as an arithmetic fact (follows from the decided formulas by the tiling lemma; lemma stated)",
                "NaN handling inside integrate beyond NaN->0; searchsorted tie side at exact equality"]
-ASSUMPTIONS = ["one generic bin / SED / filter stands for every iteration of its loop", "np.searchsorted returns the insertion index on an increasing grid"]
+ASSUMPTIONS = ["one generic bin / SED / filter stands for every iteration of its loop", "np.searchsorted returns the insertion index on an increasing grid",
+               "samples are finite and distinct in integrate_subset's by-value cases (what integrate does with NaN samples is compared separately)"]
 TRUSTED = ["python ast", "sedlint E4/E5"]
 MIN = {'ALG-13': 8, 'CFG-11a': 2, 'CFG-11b': 8, 'ALG-14': 6, 'CFG-11c': 1}
-TECHNIQUE = 'static analysis: AST value numbering with finite-domain specialisation (bin position, end-point configuration) compared with the statement\'s formulas'
+TECHNIQUE = ('static analysis: abstract interpretation of the source to algebraic normal forms, with finite-domain specialisation (bin position; integrate_subset on a grid of '
+             '3 / 4 symbolic samples under every ordering of the limits and both storage orders; re-binning on grids of 2 and 3 frequencies) compared with the statement\'s formulas')
 
 VOCAB = {'x', 'y', 'x@+1', 'x@0', 'y@+1', 'y@0', 'xv', 'fnu', 'fresp', 'snu', 'idx:n', 'sflux', 'serr', 'cubeval', 'cubeunc', 'R', 'sname', 'cnames', 'fcw', 'xmin', 'xmax'}
 FNS = {'searchsorted', 'INTEG', 'INTSUB', 'I1D'}
